@@ -1,6 +1,7 @@
 package main
 
 import (
+	"sync"
 	"encoding/json"
 	"io"
 	"net/http"
@@ -40,6 +41,18 @@ type clientRes struct {
 	Proxies string          `json:"proxies"`         // raw GET /proxies afterwards
 	Exit    int             `json:"exit,omitempty"`
 	Out     string          `json:"out,omitempty"`
+	Served  []int           `json:"served,omitempty"` // status codes the server answered while the operation ran, in order
+}
+
+// statusRecorder notes the status code of every response of the in-process server
+type statusRecorder struct {
+	http.ResponseWriter
+	code int
+}
+
+func (w *statusRecorder) WriteHeader(c int) {
+	w.code = c
+	w.ResponseWriter.WriteHeader(c)
 }
 
 func rawGet(url string) string {
@@ -54,7 +67,16 @@ func rawGet(url string) string {
 
 func runClientCase(ops []clientOp, cliBin string) []clientRes {
 	server := toxiproxy.NewServer(toxiproxy.NewMetricsContainer(nil), zerolog.Nop())
-	ts := httptest.NewServer(server.Routes())
+	var servedMu sync.Mutex
+	var served []int
+	routes := server.Routes()
+	ts := httptest.NewServer(http.HandlerFunc(func(w http.ResponseWriter, rq *http.Request) {
+		rec := &statusRecorder{ResponseWriter: w, code: 200}
+		routes.ServeHTTP(rec, rq)
+		servedMu.Lock()
+		served = append(served, rec.code)
+		servedMu.Unlock()
+	}))
 	defer func() {
 		ts.Close()
 		server.Collection.Clear()
@@ -227,7 +249,13 @@ func runClientCase(ops []clientOp, cliBin string) []clientRes {
 				r.Value = b
 			}
 		}
+		servedMu.Lock()
+		r.Served = append([]int(nil), served...)
+		servedMu.Unlock()
 		r.Proxies = rawGet(ts.URL + "/proxies")
+		servedMu.Lock()
+		served = nil
+		servedMu.Unlock()
 		out = append(out, r)
 	}
 	return out
